@@ -810,6 +810,20 @@ static void run_case(const Case& c) {
     NLW2_DestroyNLSolver_C(&cs); NLW2_DestroyNLModel_C(&cm);
     g_tag.clear();
   }
+  // NLModel::ComputeObjValue at every point of {-1,0,2}^n (exact zeros, mixed signs) against the reference formula
+  {
+    int npts = 1; for (int j = 0; j < c.n; ++j) npts *= 3;
+    static const double PV3[3] = {-1, 0, 2};
+    for (int k = 0; k < npts; ++k) {
+      std::vector<double> x(c.n); int kk = k;
+      for (int j = 0; j < c.n; ++j) { x[j] = PV3[kk % 3]; kk /= 3; }
+      stage(ST_OBJVAL);
+      double ov = mdl.ComputeObjValue(x.data());
+      stage(ST_ORACLE);
+      stat("objval_grid_points");
+      if (ov != D.ref_obj(x.data())) { VIOL("ComputeObjValue(x) != c0+c.x+0.5x'Qx on the grid {-1,0,2}^n", "x=" + vecd(x) + " got " + fmtd(ov) + " want " + fmtd(D.ref_obj(x.data()))); break; }
+    }
+  }
   // objective value recomputed from every returned primal vector (done last: a crash here loses nothing else)
   for (auto& rx : returned_x) {
     stage(ST_OBJVAL);
